@@ -70,7 +70,7 @@ def plan(seed, subbatch):
         # the whole Hexital on a collapsing timeframe: the newest bucket is merged into between evaluations
         tf = world.pick_timeframe(cfg, base_s, 2.0, 4.0, allow_finer=False)
     return {"format": 1, "property": ID, "seed": seed, "subbatch": subbatch,
-            "config": {"prewarmed": sub_rng(seed, "prewarmed").random() < 0.15,
+            "config": {"settings_edit": sub_rng(seed, "settings-edit").random() < 0.2, "prewarmed": sub_rng(seed, "prewarmed").random() < 0.15,
                        "fn": fn, "args": args, "base_s": base_s, "amorph_form": cfg.choice(("object", "dict")),
                        "tf": tf},
             "ops": [{"op": "new", "preload": pre}] + ops + [{"op": "check"}], "fired": dict(fired)}
@@ -146,6 +146,16 @@ def execute(trace, ctx=None):
                 if rows and delivered and rows[0][0] < delivered[-1][0]:
                     continue
                 delivered.extend(rows)
+                if cfg.get("settings_edit"):
+                    # between arrivals the caller reads the wrapper's settings and edits the copy it was handed
+                    # (cloning the configuration into a variant): the live wrapper must not notice
+                    from .c19 import _scribble
+
+                    try:
+                        _scribble(hx.indicator(amorph_name()).settings)
+                        _scribble(hx.indicator_settings)
+                    except Exception as exc:  # noqa: BLE001
+                        raise Violation("wrapper-raises", fn_name, "settings:" + type(exc).__name__, {"error": repr(exc)})
                 try:
                     run.call(len(delivered) * 4, hx.append, mk_candles(rows))
                 except LibError as e:
